@@ -1141,7 +1141,15 @@ def _log(x):
     if hasattr(x, '__log__'):
         return x.__log__()
     if isinstance(x, (int, float)):
-        return math.log(x) if x > 0 else -INF
+        return math.log(x) if x > 0 else (-INF if x == 0 else nan)
+    if isinstance(x, S):
+        # log of a symbolic real: in the LogP domain log(x) is the value whose weight is x
+        from .logp import LP
+        if bool(x > 0):
+            return LP(core._real(x.e))
+        if bool(x == 0):
+            return -INF
+        return nan
     raise NotImplementedError('log of symbolic %r' % type(x))
 
 
@@ -1162,11 +1170,22 @@ class _Ufunc:
         a = asarray(a)
 
         def red(l):
+            if self.f is _logaddexp:
+                l = _lift_logs(l)
             t = l[0]
             for x in l[1:]:
                 t = self.f(t, x)
             return t
         return a._red(red, axis)
+
+
+def _lift_logs(l):
+    """python constants in a log-sum that also has LogP members are lifted first, so that
+    e.g. logaddexp(-80, -80) stays 2*e^-80 exactly instead of being folded in floats"""
+    if builtins.any(hasattr(x, '__logaddexp__') for x in l):
+        from .logp import LP
+        return [LP.of(x) if isinstance(x, (int, float)) and not isinstance(x, bool) else x for x in l]
+    return l
 
 
 def _logaddexp(u, v):
@@ -1181,6 +1200,9 @@ def _logaddexp(u, v):
             return u
         m = builtins.max(u, v)
         return m + math.log(math.exp(u - m) + math.exp(v - m))
+    if isinstance(u, S) or isinstance(v, S):
+        from .logp import LP
+        return LP.of(u).__logaddexp__(v)
     raise NotImplementedError('logaddexp on %r, %r' % (type(u), type(v)))
 
 
